@@ -39,11 +39,11 @@ def confirm(sid, wt):
     demo = os.path.join(sd, "demo")
     run = os.path.join(demo, "run.sh")
     denv = {"CARGO_TARGET_DIR": os.path.join(wt, "target-demo")}
-    rc1, o1 = sh(["sh", run], cwd=demo, env=denv, timeout=3600)
+    rc1, o1 = sh(["bash", run], cwd=demo, env=denv, timeout=3600)
     print("demo with patch: exit", rc1)
     print(o1[-1500:])
     sh(["git", "apply", "-R", patch], cwd=wt)
-    rc0, o0 = sh(["sh", run], cwd=demo, env=denv, timeout=3600)
+    rc0, o0 = sh(["bash", run], cwd=demo, env=denv, timeout=3600)
     print("demo without patch: exit", rc0)
     print(o0[-600:])
     out["demo_with_patch"] = dict(exit=rc1, tail=o1[-1200:])
